@@ -3,6 +3,7 @@ import Driver.C03
 import Torf.Model.Generate
 import Torf.Model.GenHistory
 import Torf.Model.PipelineHF
+import Torf.Model.StreamFault
 import Torf.Spec.Pipeline
 open Lean Torf
 namespace Driver.C01
@@ -140,6 +141,47 @@ def mhistory (j : Json) : Except String Json := do
                ("spec", if model == spec then Json.null else jarr (spec.map resJson)),
                ("hyp", jbool (GenHistory.metasOk metas ops))]
 
+/-! ### a failing read layer (Model/StreamFault.lean) -/
+
+def parseEv (x : Json) : Except String StreamFault.Ev := do
+  let a ← x.getArr?
+  let tag ← (a[0]?.getD Json.null).getStr?
+  match tag with
+  | "ok" => return .ok
+  | "fail" => do
+    let k ← (a[1]?.getD Json.null).getNat?
+    let e ← (a[2]?.getD Json.null).getStr?
+    return .fail k (if e == "mem" then .mem else .os)
+  | _ => throw s!"bad read event {tag}"
+
+/-- op `c01.readfault` : {L, sizes, plan: [["ok"] | ["fail", k, "os"|"mem"], …], retryOs?: n, seekBack?: bool}
+    ↦ what `generate()` does over that read layer (policy: the code unless stated), the ghost counters,
+    whether the plan is inside `C01_read_fault_code_partial` (`hyp`) and whether the model meets the
+    theorem's disjunction (`sound`) -/
+def readfault (j : Json) : Except String Json := do
+  let L ← getNat j "L"
+  let sizes ← getNats j "sizes"
+  let plan ← (← getArr j "plan").mapM parseEv
+  let pol : StreamFault.Policy :=
+    { retryOs := getOptNat j "retryOs", seekBack := (getBool j "seekBack").toOption.getD false }
+  let files := mkFiles sizes
+  let r := StreamFault.iterPieces pol L files plan
+  let gen := StreamFault.generate pol (fun p => p) L files plan
+  let spec := chunks L files.flatten
+  let upFront := plan.all fun ev => match ev with
+    | .fail k .mem => k == 0
+    | _ => true
+  let sound := match gen with
+    | none => true
+    | some (.stored h) => h == spec
+    | some _ => false
+  return jobj [("model", match gen with
+                  | none => jobj [("kind", "raised")]
+                  | some o => outcomeJson o),
+               ("osRaised", jnat r.2.osRaised), ("memRaised", jnat r.2.memRaised), ("lost", jnat r.2.lost),
+               ("sound", jbool sound), ("count", jnat (Generate.torrentPieces sizes.sum L)),
+               ("hyp", jbool (L > 0 && sizes.sum > 0 && upFront && pol.retryOs.isNone))]
+
 /-! ### schedules with hasher faults (Model/PipelineHF.lean) -/
 
 open Torf.Pipeline Torf.PipelineHF in
@@ -218,6 +260,7 @@ def handle (op : String) (j : Json) : Except String Json :=
   | "c01.collect" => collect j
   | "c01.history" => history j
   | "c01.mhistory" => mhistory j
+  | "c01.readfault" => readfault j
   | "c01.replayx" => replayx j
   | _ => throw s!"unknown op {op}"
 
